@@ -31,7 +31,10 @@ fn pretty_item(item: Item) -> String {
 }
 
 fn pretty_block(b: &Block) -> String {
-    let f: ItemFn = parse_quote! { fn __w() #b };
+    let f: ItemFn = match syn::parse2(quote! { fn __w() #b }) {
+        Ok(f) => f,
+        Err(_) => return ts(b),   // generated glue code that is not meant to be selected anyway
+    };
     let s = pretty_item(Item::Fn(f));
     // strip "fn __w() " prefix
     let i = s.find('{').unwrap();
@@ -129,6 +132,7 @@ struct TraitImpl {
 }
 
 struct Collected {
+    assoc_bounds: BTreeMap<(String, String), String>,
     trait_impls: Vec<TraitImpl>,
     fns: Vec<FnRec>,
     types: Vec<Value>,
@@ -256,6 +260,14 @@ fn collect_items(items: &[Item], file: &str, module: &str, c: &mut Collected) {
                 }
                 let mut methods = vec![];
                 for ti in &t.items {
+                    if let TraitItem::Type(at) = ti {
+                        for b in &at.bounds {
+                            if let TypeParamBound::Trait(tb) = b {
+                                c.assoc_bounds.insert((t.ident.to_string(), at.ident.to_string()), tb.path.segments.last().unwrap().ident.to_string());
+                                break;
+                            }
+                        }
+                    }
                     if let TraitItem::Fn(f) = ti {
                         methods.push(json!({
                             "name": f.sig.ident.to_string(),
@@ -481,6 +493,59 @@ impl<'a> VisitMut for PathNorm<'a> {
             }
         } else if p.leading_colon.is_some() {
             p.leading_colon = None;
+        }
+    }
+    fn visit_macro_mut(&mut self, _m: &mut Macro) {}
+}
+
+/// key and emitted name of method `m` of `impl tr for ty`: an existing trait-impl method keeps its (possibly
+/// renamed) identity; a default to be instantiated is called `m`, or `Tr__m` when `ty` has an inherent `m`
+fn trait_method_name(fns: &[FnRec], tr: &str, ty: &str, m: &str) -> (String, String) {
+    for f in fns {
+        if !f.in_trait_decl && f.trait_name.as_deref() == Some(tr) && f.impl_type.as_deref() == Some(ty) {
+            let id = f.sig.ident.to_string();
+            if id == m || id == format!("{}__{}", tr, m) {
+                return (f.key.clone(), id);
+            }
+        }
+    }
+    let plain = format!("{}::{}", ty, m);
+    if fns.iter().any(|f| !f.in_trait_decl && f.trait_name.is_none() && f.key == plain) {
+        let id = format!("{}__{}", tr, m);
+        (format!("{}::{}", ty, id), id)
+    } else {
+        (plain, m.to_string())
+    }
+}
+
+struct AssocResolver<'a> {
+    tr: &'a str,
+    assoc: &'a BTreeMap<String, String>,
+    bounds: &'a BTreeMap<(String, String), String>,
+    fns: &'a [FnRec],
+    need: Vec<(String, String)>,
+    errors: Vec<String>,
+}
+impl<'a> VisitMut for AssocResolver<'a> {
+    fn visit_path_mut(&mut self, p: &mut Path) {
+        visit_mut::visit_path_mut(self, p);
+        if p.segments.len() == 3 && p.segments[0].ident == "Self" {
+            let a = p.segments[1].ident.to_string();
+            let m = p.segments[2].ident.to_string();
+            if let Some(x) = self.assoc.get(&a) {
+                let xty = x.rsplit("::").next().unwrap_or(x).trim().to_string();
+                match self.bounds.get(&(self.tr.to_string(), a.clone())) {
+                    Some(b) => {
+                        let (_, id) = trait_method_name(self.fns, b, &xty, &m);
+                        self.need.push((b.clone(), xty.clone()));
+                        let np: Path = syn::parse_str(&format!("{}::{}", xty, id)).expect("path");
+                        let args = p.segments[2].arguments.clone();
+                        *p = np;
+                        p.segments.last_mut().unwrap().arguments = args;
+                    }
+                    None => self.errors.push(format!("T8: no trait bound known for associated type {}::{}", self.tr, a)),
+                }
+            }
         }
     }
     fn visit_macro_mut(&mut self, _m: &mut Macro) {}
@@ -1115,7 +1180,7 @@ fn main() {
     }
     let job: Value = serde_json::from_str(&std::fs::read_to_string(&args[1]).expect("read job")).expect("job json");
     let root = job["root"].as_str().unwrap_or("/repo").to_string();
-    let mut c = Collected { trait_impls: vec![], fns: vec![], types: vec![], consts: vec![], clients: vec![], type_names: BTreeSet::new() };
+    let mut c = Collected { assoc_bounds: BTreeMap::new(), trait_impls: vec![], fns: vec![], types: vec![], consts: vec![], clients: vec![], type_names: BTreeSet::new() };
     let mut errors: Vec<String> = vec![];
     for f in job["files"].as_array().expect("files") {
         let rel = f.as_str().unwrap();
@@ -1131,37 +1196,6 @@ fn main() {
             Ok(file) => collect_items(&file.items, rel, "", &mut c),
             Err(e) => errors.push(format!("parse error in {}: {}", p, e)),
         }
-    }
-    // T8: trait default methods instantiated for each implementing type
-    if job["resolve_trait_defaults"].as_bool().unwrap_or(false) {
-        let mut synth = vec![];
-        for ti in &c.trait_impls {
-            for f in &c.fns {
-                if f.in_trait_decl && f.trait_name.as_deref() == Some(ti.trait_name.as_str()) {
-                    let name = f.sig.ident.to_string();
-                    if ti.overridden.contains(&name) {
-                        continue;
-                    }
-                    let key = format!("{}::{}", ti.type_name, name);
-                    if c.fns.iter().any(|g| g.key == key && !g.in_trait_decl) {
-                        continue;
-                    }
-                    let mut g = f.clone();
-                    g.key = key;
-                    g.impl_type = Some(ti.type_name.clone());
-                    g.impl_generics = ti.impl_generics.clone();
-                    g.impl_self_ty = ti.impl_self_ty.clone();
-                    g.in_trait_decl = false;
-                    g.vis = "pub".into();
-                    g.file = format!("{} (default of trait {} for {})", f.file, ti.trait_name, ti.type_name);
-                    let mut pn = PathNorm { assoc: &ti.assoc, sites: 0 };
-                    pn.visit_block_mut(&mut g.block);
-                    pn.visit_signature_mut(&mut g.sig);
-                    synth.push(g);
-                }
-            }
-        }
-        c.fns.extend(synth);
     }
     // a trait-impl method `impl Tr for T { fn m }` whose key collides with an inherent method `impl T { fn m }`
     // of the same file (e.g. `impl ContractOverrides for RWA { fn transfer }` next to `RWA::transfer`) is
@@ -1191,6 +1225,52 @@ fn main() {
                 if let (Some(t), Some(ty)) = (f.trait_name.clone(), f.impl_type.clone()) {
                     f.key = format!("{}::{}::{}", ty, t, f.sig.ident);
                 }
+            }
+        }
+    }
+    // T8: trait default methods instantiated for each implementing type.  `Self::Assoc::m(..)` inside a default
+    // body is a call through the trait the associated type is bound by (`type ContractType: ContractOverrides`), so it
+    // resolves to `impl Bound for X { fn m }` if X overrides m there, else to Bound's own default for X — never to an
+    // inherent method of X that happens to have the same name.
+    if job["resolve_trait_defaults"].as_bool().unwrap_or(false) {
+        let mut work: Vec<(String, String)> = c.trait_impls.iter().map(|t| (t.trait_name.clone(), t.type_name.clone())).collect();
+        let mut done: BTreeSet<(String, String)> = BTreeSet::new();
+        while let Some((tr, ty)) = work.pop() {
+            if !done.insert((tr.clone(), ty.clone())) {
+                continue;
+            }
+            let (assoc, overridden, igen, iself) = match c.trait_impls.iter().find(|t| t.trait_name == tr && t.type_name == ty) {
+                Some(ti) => (ti.assoc.clone(), ti.overridden.clone(), ti.impl_generics.clone(), ti.impl_self_ty.clone()),
+                None => (BTreeMap::new(), BTreeSet::new(), String::new(), ty.clone()),
+            };
+            let defaults: Vec<FnRec> = c.fns.iter().filter(|f| f.in_trait_decl && f.trait_name.as_deref() == Some(tr.as_str())).cloned().collect();
+            for f in defaults {
+                let name = f.sig.ident.to_string();
+                if overridden.contains(&name) {
+                    continue;
+                }
+                let (key, ident) = trait_method_name(&c.fns, &tr, &ty, &name);
+                if c.fns.iter().any(|g| g.key == key && !g.in_trait_decl) {
+                    continue;
+                }
+                let mut g = f.clone();
+                g.key = key;
+                g.sig.ident = Ident::new(&ident, g.sig.ident.span());
+                g.impl_type = Some(ty.clone());
+                g.impl_generics = igen.clone();
+                g.impl_self_ty = iself.clone();
+                g.in_trait_decl = false;
+                g.vis = "pub".into();
+                g.file = format!("{} (default of trait {} for {})", f.file, tr, ty);
+                let mut ar = AssocResolver { tr: &tr, assoc: &assoc, bounds: &c.assoc_bounds, fns: &c.fns, need: vec![], errors: vec![] };
+                ar.visit_block_mut(&mut g.block);
+                let mut pn = PathNorm { assoc: &assoc, sites: 0 };
+                pn.visit_signature_mut(&mut g.sig);
+                for e in ar.errors {
+                    errors.push(format!("{}: {}", g.key, e));
+                }
+                work.extend(ar.need);
+                c.fns.push(g);
             }
         }
     }
@@ -1226,13 +1306,16 @@ fn main() {
             }
         }
     }
+    let exclude_prefixes: Vec<String> =
+        job["exclude_fn_prefixes"].as_array().map(|a| a.iter().map(|v| v.as_str().unwrap().to_string()).collect()).unwrap_or_default();
     // optional per-file disambiguation "file#key"
     let mut selected: Vec<FnRec> = vec![];
     let mut seen = BTreeSet::new();
     for f in &c.fns {
         let fk = format!("{}#{}", f.file, f.key);
         let shadowed = f.trait_name.is_some() && f.key.matches("::").count() == 2;
-        let want = ((all && !shadowed) || sel.contains(&f.key) || sel.contains(&fk)) && !exclude.contains(&f.key) && !exclude.contains(&fk);
+        let want = ((all && !shadowed) || sel.contains(&f.key) || sel.contains(&fk)) && !exclude.contains(&f.key) && !exclude.contains(&fk)
+            && !exclude_prefixes.iter().any(|p| f.key.starts_with(p.as_str()));
         if want {
             if !seen.insert(f.key.clone()) {
                 // `Type::name` defined both as an inherent method and as a trait-impl method: a path call
@@ -1377,7 +1460,13 @@ fn main() {
         };
         let mut pn = PathNorm { assoc: assoc_here, sites: 0 };
         pn.visit_block_mut(&mut block);
-        rw.visit_block_mut(&mut block);
+        let res = std::panic::catch_unwind(std::panic::AssertUnwindSafe(|| {
+            rw.visit_block_mut(&mut block);
+        }));
+        if res.is_err() {
+            errors.push(format!("{}: unsupported construct (the rewriter could not re-parse an expression)", f.key));
+            continue;
+        }
         let body = pretty_block(&block);
         // params
         let mut params = vec![];
